@@ -37,7 +37,7 @@ ASSUMPTIONS = ["index values are compared only through <, <=, == (non-negative i
                "boundary_slice(df, lo, hi, right_boundary) = rows with lo <= key and (key < hi or right_boundary and key == hi), order kept",
                "int(i*(old/new)) and np.linspace(0,len,k+1).astype(int) are non-decreasing, start at 0 and end <= old/len "
                "(checked exhaustively for old,new <= 120 quick / 300 thorough against the exact double model and the hypothesis)"]
-CASE_TIMEOUT_S = 20
+CASE_TIMEOUT_S = 90
 
 
 def _okraised(fn):
